@@ -18,9 +18,10 @@ META = {
     "rule": (
         "inputs: G1 generated programs (exec) and expressions (eval and exec), G2 layout variants (CRLF, tabs, form feeds, "
         "backslash continuations, comments, blank lines, newlines inside brackets, missing final newline; self-checked to be the "
-        "same program), G3 corpus statements (repo test data + stdlib sample; thorough: whole stdlib) and whole test-data files. "
-        "Only texts CPython accepts, without f-strings, '@(' , BOM/NUL, nesting>50. Oracle: field-by-field and span-by-span "
-        "comparison with ast.parse. non-trivial = accepted by CPython and the tree has >=4 distinct node classes besides "
+        "same program), G3 corpus statements (repo test data + stdlib sample; thorough: whole stdlib) and whole test-data files, every ordered pair "
+        "/ triple of adjacent string-literal kinds, and one program of >= 100 000 tokens per run (thorough: one per worker, up to 250 000). "
+        "Only texts CPython accepts, without '@(' , BOM/NUL, nesting>50 (f-strings included, with C10's normalisation of the reference's "
+        "format-spec artefacts). Oracle: field-by-field and span-by-span comparison with ast.parse. non-trivial = accepted by CPython and the tree has >=4 distinct node classes besides "
         "Module/Expression/Expr/Load/Store; distinct by (mode, text)."
     ),
     "assumptions": [
@@ -51,9 +52,11 @@ def in_domain(src: str, tree) -> str | None:
         return "at-paren-digraph"
     if "\x00" in src or "﻿" in src:
         return "bom-or-nul"
-    for n in ast.walk(tree):
-        if isinstance(n, ast.JoinedStr):
-            return "f-string"
+    if "=" in src and "#" in src and any(isinstance(n, ast.JoinedStr) for n in ast.walk(tree)):
+        from .c10 import DEBUG_WITH_HASH  # CPython 3.12.1 cuts the text of a '=' field at any '#': see C10
+
+        if DEBUG_WITH_HASH.search(src):
+            return "hash-inside-debug-field(reference-bug)"
     if max_nesting(src) > 50:
         return "nesting>50"
     return None
@@ -126,7 +129,9 @@ def check(rec, case):
         sig = f"not-accepted:{c0[0]}:{c0[1] if len(c0) > 1 else ''}:{o.site}"
         rec.fail(case, sig[:160], {"outcome": [str(x)[:200] for x in c0]})
         return
-    d = astdiff(c.tree, o.tree, positions=True)
+    from .c10 import strip_empty_spec_constants  # the reference's own artefacts inside format specs (see C10)
+
+    d = astdiff(strip_empty_spec_constants(c.tree), strip_empty_spec_constants(o.tree), positions=True)
     if d is not None:
         rec.fail(case, diff_signature(d), {"path": d[0], "kind": d[1], "expected": d[2], "got": d[3]})
 
@@ -157,6 +162,20 @@ def search(rec, ctx):
 
     for s in ctx.shard(list(lex.string_concat_matrix())):
         check(rec, {"src": "x = " + s + "\n", "mode": "exec", "stream": "string-concat-matrix"})
+
+    # one long program (>= 100 000 tokens; thorough: one per worker, up to 250 000): size-dependent behaviour of the
+    # token cache, the memo table and the line bookkeeping only shows on inputs far larger than any test
+    if ctx.k == 0 or ctx.thorough:
+        lrng = ctx.rng("long-program")
+        target = 430_000 if not ctx.thorough else lrng.choice([430_000, 700_000, 1_000_000])
+        pool = [s if s.endswith("\n") else s + "\n" for s in corp if s.isascii() and cpy(s).kind == "tree"]
+        parts, size = [], 0
+        while pool and size < target:
+            st_ = pool[lrng.randrange(len(pool))]
+            parts.append(st_)
+            size += len(st_)
+        if size >= target:
+            check(rec, {"src": "".join(parts), "mode": "exec", "stream": "long-program"})
 
     seeds_for_layout = list(corp)
 
